@@ -219,7 +219,9 @@ class ImportTracks(Stream):
             tracks = [rand_voices(rng, nb, lens) for _ in range(ntr)]
             while not all(any(v) for v in tracks):
                 tracks = [rand_voices(rng, nb, lens) for _ in range(ntr)]
-            instr = rng.choice([["piano"] * ntr, ["piano", "violin", "piano"][:ntr], ["flute", "flute", "cello"][:ntr]])
+            instr = rng.choice([["piano"] * ntr, ["piano", "violin", "piano"][:ntr], ["flute", "flute", "cello"][:ntr],
+                                # pitched General MIDI instruments whose name contains 'drum': not drum kits
+                                ["steel_drums", "piano", "taiko_drum"][:ntr], ["synth_drum", "synth_drum", "violin"][:ntr]])
             yield {"chords": chords, "lens": lens, "tracks": tracks, "instr": instr, "via_table": rng.random() < 0.5}
 
     def impl(self, case):
